@@ -205,12 +205,17 @@ class Nulls:
 
     # ------------------------------------------------------------------ parameter dereference summaries
     def _compute_param_deref(self):
-        for q, f in self.repo.funcs.items():
-            if isinstance(f.node, ast.Lambda):
-                self.param_deref[q] = _lambda_derefs(f)
-                continue
-            res = self.analyse(f, assume_params_mn=True, collect_params=True)
-            self.param_deref[q] = res
+        # a parameter handed on to a callee that dereferences it counts too: iterate to a fixpoint (call chains are short)
+        for _ in range(4):
+            before = {q: set(v) for q, v in self.param_deref.items()}
+            for q, f in self.repo.funcs.items():
+                if isinstance(f.node, ast.Lambda):
+                    self.param_deref[q] = _lambda_derefs(f)
+                    continue
+                res = self.analyse(f, assume_params_mn=True, collect_params=True)
+                self.param_deref[q] = set(res) | self.param_deref.get(q, set())
+            if before == self.param_deref:
+                break
 
     # ------------------------------------------------------------------ intraprocedural analysis
     def new_gid(self):
@@ -507,6 +512,9 @@ class _Analysis:
         for k in e.keywords:
             v = self.ev(k.value, env)
             self.check_arg(e, callees, None, k.arg, k.value, v, env)
+        # list.index(x) / list.remove(x) raise ValueError unless x is an element: None never is one
+        if isinstance(e.func, ast.Attribute) and e.func.attr in ('index', 'remove') and len(e.args) == 1 and not callees:
+            self.sink(e.args[0], env, f'element lookup .{e.func.attr}()', e)
         # stdlib functions that dereference their argument
         if isinstance(e.func, ast.Name) and e.func.id in ('len', 'iter', 'list', 'tuple', 'sorted', 'reversed', 'enumerate', 'sum', 'max', 'min', 'next', 'int'):
             for a in e.args[:1]:
